@@ -34,6 +34,7 @@ func (cx *Ctx) runC01() {
 	nSpecs := cx.count(4000, 300000)
 	gc := genCfg{allowRandomGreedy: true, nastyPct: 12, multiPct: 25, bigPct: 6}
 	known := cx.replayKnown()
+	corpusN := cx.runCorpus()
 
 	r := rng{s: mix(cx.Seed, 0xC01)}
 	jobs := make([]*spec.Job, nSpecs)
@@ -172,6 +173,7 @@ func (cx *Ctx) runC01() {
 		"budget_rule":                  budgetRule,
 		"faults_fired":                 map[string]int{"map-order permutation": range2, "clock origin (RNG seed) chosen by simulator": evals},
 		"determinism_selftest":         st,
+		"regression_corpus_specs":     corpusN,
 		"known_findings_confirmed":     known,
 		"violation_keys":               violKeys(cx),
 	}
